@@ -17,11 +17,13 @@
     annotations_record_origin    `Orig. start` / `Orig. end`
   Proved under `wfInput` (see `shift_same_bases_partial`):
     shift_same_bases_partial     every written feature covers exactly the bases of its original
+    extract_reloads_partial      (also `linked`) the numbers written follow the order in which a record
+                                 that loads the file numbers the areas
   Left to the executable spec on the real output (correspondence): the loaded file shows one region
   with the same content; `core_location` / leader / tail texts; regions covering a whole circular
   record; origin-spanning features with several parts on one side of the origin.
 -/
-import ASV.Proofs.RegionExtractMain
+import ASV.Proofs.RegionExtractOrder
 namespace ASV.C12
 open ASV ASV.RegionExtract
 
@@ -96,6 +98,30 @@ theorem renumber_consistent (rd : RegionData) (rec : BioRecord) (w : Written)
     GoodNumbering rd rec.length (subDict rd) (renumbering rd rec.length).subs :=
   ⟨fun g hg => written_refs rd rec w h g hg, renumbering_good rd rec.length⟩
 
+/-- The full statement: the file, taken on its own, is what a record that loads it expects — areas of
+    each kind numbered `1..n` in load order, every reference by number resolving, `core_location`
+    texts denoting the core features, exactly one region over the whole file (all executable; the
+    correspondence evaluates it on every file the real code writes). -/
+def ExtractReloads (rd : RegionData) (rec : BioRecord) (w : Written) : Prop :=
+  selfConsistent rec.length rd w.extract.features = true
+
+/-- Proved part: the numbers written for protoclusters, candidate clusters and subregions are those of
+    the renumbering of `renumber_consistent` (a bijection of the region's areas onto `1..n`), and they
+    follow the order in which a record loading the file numbers these areas (`CDSCollection.__lt__`:
+    by start — an area still running over the origin counting from before it —, larger first): an area
+    that is loaded strictly before another carries the smaller number.
+    Hypotheses: `wfInput` as above, and `linked`: the two views of the region's areas handed to
+    `write_to_genbank` agree (an area feature of the record carries the location its `RegionData`
+    entry of the same number has) and area locations are one forward part or a forward pair over the
+    origin.  Missing for `ExtractReloads`: that each of `1..n` is used by exactly one written feature
+    (one feature per area), the text round trip of `core_location`, the single region feature. -/
+theorem extract_reloads_partial (rd : RegionData) (rec : BioRecord) (w : Written)
+    (h : writeToGenbank rd rec = .ok w) (hwf : wfInput rd rec = true) (hlink : linked rd rec = true) :
+    FollowsLoadOrder "protocluster" (·.q.protoNumber) w.extract.features ∧
+    FollowsLoadOrder "cand_cluster" (·.q.candNumber) w.extract.features ∧
+    FollowsLoadOrder "subregion" (·.q.subNumber) w.extract.features :=
+  written_follow_load_order rd rec w h hwf hlink
+
 /-! ### non-vacuity: a concrete record on which every hypothesis holds and every branch is taken -/
 
 /-- a circular record of 20 bases: an origin-spanning protocluster (neighbourhood `[16,20)+[0,6)`, core
@@ -127,6 +153,12 @@ def exCross : RegionData :=
 def exLater : RegionData := { start := 13, «end» := 15, cands := [], subs := [⟨2, .simple ⟨13, 15, .fwd⟩⟩] }
 
 example : wfInput exCross exRec = true ∧ wfInput exLater exRec = true := by decide
+example : linked exCross exRec = true ∧ linked exLater exRec = true := by decide
+/-- on the example the numbering part of the full statement holds too -/
+example : (writeToGenbank exCross exRec).toOption.map (fun w =>
+      numberedAsLoaded (·.q.protoNumber) (ofType "protocluster" w.extract.features) &&
+      numberedAsLoaded (·.q.candNumber) (ofType "cand_cluster" w.extract.features) &&
+      refsInRange w.extract.features) = some true := by decide
 
 /-- the file of the origin-spanning region: 10 bases; the gene before the origin first, then the areas
     (now `[0,10)`, core `[2,6)`), then the gene after the origin at `[5,8)` -/
